@@ -852,9 +852,11 @@ func runOptimizer(seed int64, cfg *config) *result {
 	mismatch := 0
 	for d := 0; d < draws; d++ {
 		var got []string
-		if d%2 == 0 {
+		cu, reqBlock := uint64(r.Intn(100)), int64(r.Intn(5000))-1
+		switch d % 4 {
+		case 0:
 			var st *po.SelectionStats
-			got, st = opt.ChooseProviderWithStats(ctx, all, ignored, uint64(r.Intn(100)), int64(r.Intn(5000))-1)
+			got, st = opt.ChooseProviderWithStats(ctx, all, ignored, cu, reqBlock)
 			if d == 0 && st != nil {
 				for i, ps := range st.ProviderScores {
 					if i >= len(scores) || ps.Address != scores[i].Address || ps.Composite != scores[i].SelectionWeight {
@@ -862,8 +864,12 @@ func runOptimizer(seed int64, cfg *config) *result {
 					}
 				}
 			}
-		} else {
-			got = opt.ChooseProvider(ctx, all, ignored, uint64(r.Intn(100)), int64(r.Intn(5000))-1)
+		case 1:
+			got = opt.ChooseProvider(ctx, all, ignored, cu, reqBlock)
+		case 2:
+			got = opt.ChooseBestProvider(ctx, all, ignored, cu, reqBlock)
+		case 3:
+			got, _ = opt.ChooseBestProviderWithStats(ctx, all, ignored, cu, reqBlock)
 		}
 		switch {
 		case len(got) == 0 || got[0] == "":
@@ -1077,7 +1083,7 @@ func TestC35(t *testing.T) {
 		"must_appear_threshold":              mustAppearExp,
 		"monotonicity_tolerance":             monoTol,
 	})
-	run.Finish("generated selector configurations (2-30 candidates, 7 strategies, default/random metric weights, min chance 1e-6..0.3, adaptive P10-P90 bounds off/valid/invalid, QoS reports normal/perfect/awful/extreme/unparsable/missing/nil, stakes 0..1e15 in 6 regimes, ignored sets none/few/most/all/foreign) drawn N times through the real SelectProviderWithStats with its PRNG seeded from VERIF_SEED, and optimizer configurations (2-12 providers fed with probe/relay samples on a virtual clock, optional T-digest adaptive bounds) drawn through ChooseProvider/ChooseProviderWithStats; plus metamorphic CalculateScore / CalculateProviderScores / UpdateWeights pairs. evaluations = configurations + metamorphic pairs. A configuration is non-trivial when at least two candidates with different weights were eligible and the goodness-of-fit test had df >= 1; distinct = distinct (path, strategy, weights, min chance, candidate weight vector)",
+	run.Finish("generated selector configurations (2-30 candidates, 7 strategies, default/random metric weights, min chance 1e-6..0.3, adaptive P10-P90 bounds off/valid/invalid, QoS reports normal/perfect/awful/extreme/unparsable/missing/nil, stakes 0..1e15 in 6 regimes, ignored sets none/few/most/all/foreign) drawn N times through the real SelectProviderWithStats with its PRNG seeded from VERIF_SEED, and optimizer configurations (2-12 providers fed with probe/relay samples on a virtual clock, optional T-digest adaptive bounds) drawn through ChooseProvider / ChooseProviderWithStats / ChooseBestProvider / ChooseBestProviderWithStats (one PRNG stream); plus metamorphic CalculateScore / CalculateProviderScores / UpdateWeights pairs. evaluations = configurations + metamorphic pairs. A configuration is non-trivial when at least two candidates with different weights were eligible and the goodness-of-fit test had df >= 1; distinct = distinct (path, strategy, weights, min chance, candidate weight vector)",
 		(nSel+nOpt)/2,
 		"weights are the SelectionWeight values CalculateProviderScores hands to the draw (optimizer path: recomputed by an independent selector instance from the optimizer's exported config and QoS reports)",
 		"a weight decrease below 1e-12 is treated as floating-point noise",
